@@ -337,6 +337,24 @@ class Sem:
             want, x = f[2], w.ident(f[1], expand_ws=False)
         elif f[0] == "truth" and f[2] is True:
             want, x = "true", w.ident(f[1], expand_ws=False)
+        if f[0] == "variant" and f[1].op == "proj":
+            # a tag handed out by a classifier (`match Origin::identify(..)? { Some(Origin::BSeiToken) => ..`): the facts that hold on
+            # every path of the classifier to the construction of that tag, below the Ok / Some wrappers it is returned in
+            chain = [f[2]]
+            y = f[1]
+            while y.op == "proj" and y.info in ("some", "ok") and y.args:
+                chain.append("Some" if y.info == "some" else "Ok")
+                y = y.args[0]
+            y = w.ident(y, expand_ws=False)
+            if len(chain) > 1 and y.op == "call":
+                b = w.callee_body(y)
+                if b is not None and b.is_fn():
+                    out = []
+                    for g in self.tag_facts(b, tuple(reversed(chain))):
+                        out.append(tuple(w.subst_params(t, b, list(y.args)) if isinstance(t, E) else t for t in g))
+                    return out
+            if want is None:
+                return []
         if want is None or x.op != "call":
             return []
         b = w.callee_body(x)
@@ -371,6 +389,55 @@ class Sem:
         if nm in ("std::option::Option::ok_or", "std::option::Option::ok_or_else") and want == "Ok":
             return [("variant", x.args[0], "Some")] + self.value_facts(x.args[0], "Some", depth + 1)
         return []
+
+    def tag_facts(self, body, path):
+        """facts that hold on every path of `body` to the construction of the value it returns as path[0](path[1](..path[-1])),
+        e.g. ('Ok', 'Some', 'BSeiToken'); [] when the constructions cannot all be located"""
+        memo = self.__dict__.setdefault("_tf_memo", {})
+        k = (body.path, path)
+        if k in memo:
+            return memo[k]
+        memo[k] = []
+        w = self.w
+        be = w.be(body)
+        cfg = be.cfg
+
+        def sites(x, i, depth=0):
+            x = w.ident(x, expand_ws=False)
+            if depth > 12:
+                return None
+            if x.op == "phi":
+                out = []
+                for a in x.args:
+                    r = sites(a, i, depth + 1)
+                    if r is None:
+                        return None
+                    out.extend(r)
+                return out
+            if x.op == "call" and x.info.endswith("from_residual"):
+                return []
+            if x.op != "adt":
+                return None
+            if x.info[1] != path[i]:
+                return []
+            if i == len(path) - 1:
+                return [x.site[1]] if x.site is not None and x.site[0] == body.path else None
+            return sites(x.args[0], i + 1, depth + 1) if x.args else []
+        ts = sites(w.ret_expr(body), 0)
+        if not ts:
+            return []
+        common = None
+        for t in ts:
+            fs = []
+            for blk in body.blocks:
+                if blk.cleanup or blk.term.kind != "switch" or blk.idx not in cfg.live or len(cfg.succ[blk.idx]) < 2:
+                    continue
+                for succ, fl in self.edge_facts(be, blk.idx).items():
+                    if t not in cfg.reach([0], removed={(blk.idx, succ)}):
+                        fs.extend(fl)
+            common = fs if common is None else [g for g in common if g in fs]
+        memo[k] = common or []
+        return memo[k]
 
     def helper_facts(self, body, want):
         """facts that hold on every path of workspace function `body` to a return of Some(..) / Ok(..) / true (in its own terms)"""
